@@ -191,7 +191,7 @@ def run_restart(spec):
             multi = "objective_0" in head
 
     async def run(job):
-        uid = 9000 + int(str(job.id).split(".")[-1])
+        uid = spec.get("base", 9000) + int(str(job.id).split(".")[-1])
         with _open(os.path.join(SIDE, "finished.txt"), "a") as f:
             f.write("%d 0\n" % uid)
         return (float(uid), float((uid * 7) % 5)) if multi else float(uid)
